@@ -289,6 +289,16 @@ func c09Seeds() [][]fixscan.Field {
 		s = append(s, app(hdr(bs, "0", 2), fixscan.Field{112, "X"}))
 		s = append(s, app(hdr(bs, "D", 2), fixscan.Field{11, "ID"}, fixscan.Field{21, "1"}, fixscan.Field{55, "IBM"}, fixscan.Field{54, "1"}, fixscan.Field{60, now}, fixscan.Field{38, "100"}, fixscan.Field{40, "2"}, fixscan.Field{44, "12.5"}))
 	}
+	// administrative messages in the BeginString of the plain session states (FIX.4.2), so that their mutants get
+	// past the BeginString gate and reach the handlers
+	{
+		bs := "FIX.4.2"
+		s = append(s, app(hdr(bs, "1", 2), fixscan.Field{112, "T"}))
+		s = append(s, app(hdr(bs, "2", 2), fixscan.Field{7, "1"}, fixscan.Field{16, "0"}))
+		s = append(s, app(hdr(bs, "3", 2), fixscan.Field{45, "1"}, fixscan.Field{371, "55"}, fixscan.Field{372, "D"}, fixscan.Field{373, "1"}, fixscan.Field{58, "x"}))
+		s = append(s, app(hdr(bs, "4", 2), fixscan.Field{43, "Y"}, fixscan.Field{122, now}, fixscan.Field{123, "Y"}, fixscan.Field{36, "5"}))
+		s = append(s, app(hdr(bs, "5", 2), fixscan.Field{58, "bye"}))
+	}
 	bs := "FIX.4.4"
 	s = append(s, app(hdr(bs, "1", 2), fixscan.Field{112, "T"}))
 	s = append(s, app(hdr(bs, "2", 2), fixscan.Field{7, "1"}, fixscan.Field{16, "0"}))
@@ -788,7 +798,7 @@ func c09RunCase(cs c09Case) (bool, string, error) {
 	site, txt := guard(func() {
 		sk := strings.SplitN(cs.Sink, ":", 2)
 		switch sk[0] {
-		case "parse-string":
+		case "parse-string", "parse":
 			sinkParse(d, in, false)
 		case "parse+validate":
 			sinkParse(d, in, true)
